@@ -145,6 +145,23 @@ func (p *Program) verifyFunc(fn *ssa.Function, ct *Contract, sweepOnly bool) (re
 		o.Expect = "sat"
 	}
 	ex.run(fr, st.clone())
+	// loop clauses for a loop the function does not have check nothing: report them
+	if ct != nil {
+		have := map[int]bool{}
+		for _, li := range fr.loops {
+			have[li.number] = true
+		}
+		var nums []int
+		for n := range ct.Loops {
+			nums = append(nums, n)
+		}
+		sort.Ints(nums)
+		for _, n := range nums {
+			if !have[n] {
+				vc.oblige(&Obligation{Name: fmt.Sprintf("%s#loop%d.noloop", key, n), Kind: "static", PC: "true", Goal: "false", Text: fmt.Sprintf("the contract has clauses for loop %d but the function has only %d loops", n, len(have)), Fn: key})
+			}
+		}
+	}
 	// a guard that matched no site checks nothing: report it instead of passing silently
 	if ct != nil {
 		for _, g := range ct.Guards {
@@ -276,6 +293,11 @@ func (ex *Exec) checkReturn(fr *Frame, ct *Contract, r retInfo, ord int) {
 		}
 	}
 	for _, e := range ct.Ensures {
+		if ct.Opts["assumeensures"] != "" {
+			// the postconditions are ASSUMED for callers (listed as such); the body is still checked for its loop
+			// clauses, guards and safety
+			break
+		}
 		if e.Behav != "" {
 			// behaviours: assumes-clauses are handled as antecedents by the writer; label carries the name
 		}
